@@ -163,6 +163,9 @@ func (c *Ctx) End(s *simrt.Sim) {
 	st.Add("s1_nonidentity_perms", s.PermNonIdentity)
 	st.Add("s2_switches", s.Switches)
 	st.Add("order_mode_"+s.Mode.String(), 1)
+	if m := s.ThreadMode(); m >= 0 {
+		st.Add("preempt_mode_"+[]string{"random", "none", "access", "targeted"}[m], 1)
+	}
 	st.Max("max_depth_seen", uint64(s.MaxDepthSeen))
 	for id, ss := range s.Sites {
 		d := st.Sites[id]
